@@ -82,6 +82,13 @@ def make_scenarios(rng, tier, focus, count):
                     codes[ident] = {"signal": rng.choice([9, 15, 11, 2])}
                 else:
                     fl.append(ident)
+        if focus == "fail" and rng.random() < 0.3:
+            procs = [t for t in range(1, n + 1) if g["kind"][t - 1] in ("exp", "cmd")]
+            if procs:
+                ident = RC.ident_of(pkgs, rng.choice(procs))
+                codes.pop(ident, None)
+                if ident not in fl:
+                    fl.append(ident)
         sched = {"seed": rng.randrange(1 << 30), "codes": codes, "fail_launch": fl,
                  "p_exit": rng.choice([0.1, 0.25, 0.6, 0.9]), "p_deliver": rng.choice([0.15, 0.5, 0.9]),
                  "allow_steal": focus == "reap"}
